@@ -315,7 +315,9 @@ def manifest():
         "checks": checks,
         "not_applicable": na,
         "notes": "Every check: bin/check <id> quick|thorough. Exit 0 held / 1 VIOLATION / 2 broken machinery. "
-                 "known_findings.json lists recorded defects and fixed: entries. See DESIGN.md.",
+                 "known_findings.json lists recorded defects and fixed: entries. See DESIGN.md. "
+                 "Additional specifications beyond the listed properties (context.WithCancelError, chans, ulidutils, MMFile, HashDir, "
+                 "slice/map helpers) run as bin/check X01..X06 (DESIGN.md 9.5); they are not claimed here.",
     }
 
 
